@@ -153,25 +153,25 @@ Definition plain_evs (evs : list event) : Prop :=
    _handle_task_error *)
 Lemma select_task_pres (P : rstate -> Prop) (k : name) :
   (forall r s, P r -> P (with_d r (set_status tasks (r_d r) k s))) ->
-  (forall r evs, P r -> plain_evs evs -> P (emit r evs)) ->
+  (forall r e, P r -> In e [EGetStatus k; ESkipIgnore k; ESkipUpToDate k] -> P (emit r [e])) ->
   (forall r kd, P r -> P (handle_error tasks continue_ r k kd)) ->
   forall r b r1, P r -> select_task tasks continue_ always r k = (b, r1) -> P r1.
 Proof.
   intros Pd Pe Ph r b r1 H E. unfold select_task in E.
   assert (Hga : forall r0 b0 r2, P r0 -> get_args tasks continue_ r0 k = (b0, r2) -> P r2).
   { intros r0 b0 r2 H0 Q. unfold get_args in Q. destruct (t_argerr (get_task k)); inversion Q; subst; auto. }
-  assert (He : P (emit r [EGetStatus k])) by (apply Pe; auto; repeat split; reflexivity).
+  assert (He : P (emit r [EGetStatus k])) by (apply Pe; auto; simpl; auto).
   assert (Hlater :
      (if negb (is_nil (n_ign (node_of tasks (r_d r) k)))
       then (false, emit (with_d r (set_status tasks (r_d r) k SIgnore)) [ESkipIgnore k])
       else if negb (is_nil (n_bad (node_of tasks (r_d r) k))) then (false, handle_error tasks continue_ r k kind_unmet)
       else get_args tasks continue_ r k) = (b, r1) -> P r1).
-  { intros Q. destruct (negb (is_nil (n_ign _))); [inversion Q; subst; apply Pe; [apply Pd; auto|repeat split; reflexivity]|].
+  { intros Q. destruct (negb (is_nil (n_ign _))); [inversion Q; subst; apply Pe; [apply Pd; auto|simpl; auto]|].
     destruct (negb (is_nil (n_bad _))); [inversion Q; subst; apply Ph; auto|]. eapply Hga; [exact H|exact Q]. }
   destruct (n_st (node_of tasks (r_d r) k)); try (apply Hlater; exact E).
   clear Hlater.
   destruct (negb (is_nil (n_ign (node_of tasks (r_d r) k))) || t_dbignore (get_task k)).
-  { inversion E; subst. apply Pe; [apply (Pd (emit r [EGetStatus k])); auto|repeat split; reflexivity]. }
+  { inversion E; subst. apply Pe; [apply (Pd (emit r [EGetStatus k])); auto|simpl; auto]. }
   destruct (negb (is_nil (n_bad (node_of tasks (r_d r) k)))).
   { inversion E; subst. apply Ph; auto. }
   assert (Hrun : forall st,
@@ -184,7 +184,7 @@ Proof.
   destruct (t_check (get_task k)).
   - destruct always; cbv beta iota zeta in E; apply (Hrun SRun); exact E.
   - destruct always; cbv beta iota zeta in E; [apply (Hrun SRun); exact E|].
-    inversion E; subst. apply Pe; [apply (Pd (emit r [EGetStatus k])); auto|repeat split; reflexivity].
+    inversion E; subst. apply Pe; [apply (Pd (emit r [EGetStatus k])); auto|simpl; auto].
   - inversion E; subst. apply Ph; auto.
 Qed.
 
@@ -192,7 +192,7 @@ Lemma TInv_select r k b r1 : TInv r -> select_task tasks continue_ always r k = 
 Proof.
   apply (select_task_pres TInv k).
   - intros r0 s H. apply TInv_with_d. exact H.
-  - intros r0 evs H (A & B & C). apply TInv_emit_plain; auto.
+  - intros r0 e H [<-|[<-|[<-|[]]]]; apply TInv_emit_plain; auto.
   - intros r0 kd H. apply TInv_handle_error; auto.
 Qed.
 
@@ -201,7 +201,7 @@ Lemma select_task_execs r k b r1 :
   select_task tasks continue_ always r k = (b, r1) -> execs (r_tr r1) = execs (r_tr r).
 Proof.
   intros E. apply (select_task_pres (fun r0 => execs (r_tr r0) = execs (r_tr r)) k) with (r := r) (b := b); auto.
-  - intros r0 evs H (A & B & C). unfold emit. simpl. rewrite execs_app, C, app_nil_r. exact H.
+  - intros r0 e H [<-|[<-|[<-|[]]]]; unfold emit; simpl; rewrite execs_app; simpl; rewrite app_nil_r; exact H.
   - intros r0 kd H. unfold handle_error, handle_error_gen. simpl. rewrite execs_app. simpl. rewrite app_nil_r. exact H.
 Qed.
 
@@ -218,12 +218,33 @@ Proof.
   - intros r0 s [[evs A] B]. split; [exists evs; exact A|].
     intros x Hx. simpl. unfold set_status. unfold st_of at 1. unfold node_of.
     unfold set_node. simpl. unfold upd. apply N.eqb_neq in Hx. rewrite Hx. apply B. apply N.eqb_neq. exact Hx.
-  - intros r0 evs [[e0 A] B] _. split; [|exact B]. unfold emit. simpl. rewrite A. exists (e0 ++ evs). rewrite app_assoc. reflexivity.
+  - intros r0 e [[e0 A] B] _. split; [|exact B]. unfold emit. simpl. rewrite A. exists (e0 ++ [e]). rewrite app_assoc. reflexivity.
   - intros r0 kd [[e0 A] B]. unfold handle_error, handle_error_gen. simpl. split.
     + rewrite A. eexists. rewrite <- app_assoc. reflexivity.
     + intros x Hx. unfold set_status. unfold st_of at 1. unfold node_of.
       unfold set_node. simpl. unfold upd. apply N.eqb_neq in Hx. rewrite Hx. apply B. apply N.eqb_neq. exact Hx.
   - split; [exists []; rewrite app_nil_r; reflexivity|auto].
+Qed.
+
+(* every final report select_task emits is about the task it was given *)
+Definition about (k : name) (e : event) : Prop :=
+  match e with
+  | ESuccess k' | ESkipUpToDate k' | ESkipIgnore k' | EFailure k' _ => k' = k
+  | EExecute _ => False
+  | _ => True end.
+
+Lemma select_task_about r k b r1 :
+  select_task tasks continue_ always r k = (b, r1) ->
+  exists evs, r_tr r1 = r_tr r ++ evs /\ Forall (about k) evs.
+Proof.
+  intros E.
+  apply (select_task_pres (fun r0 => exists evs, r_tr r0 = r_tr r ++ evs /\ Forall (about k) evs) k) with (r := r) (b := b); auto.
+  - intros r0 e [e0 [A B]] Hin. unfold emit. simpl. exists (e0 ++ [e]). rewrite A, app_assoc. split; auto.
+    apply Forall_app. split; auto. constructor; auto.
+    destruct Hin as [<-|[<-|[<-|[]]]]; simpl; auto.
+  - intros r0 kd [e0 [A B]]. unfold handle_error, handle_error_gen. simpl. exists (e0 ++ [ERemove k; EFailure k kd]).
+    rewrite A, app_assoc. split; auto. apply Forall_app. split; auto. repeat constructor.
+  - exists []. rewrite app_nil_r. split; auto.
 Qed.
 
 Lemma TInv_start r k : TInv r -> TInv (start_task tasks r k).
